@@ -1918,6 +1918,7 @@ coap_retransmit(coap_context_t *context, coap_queue_t *node) {
     ssize_t bytes_written;
     coap_tick_t now;
     coap_tick_t next_delay;
+    int con_released = 0;
 
     node->retransmit_cnt++;
     coap_handle_event_lkd(context, COAP_EVENT_MSG_RETRANSMITTED, node->session);
@@ -1952,8 +1953,10 @@ coap_retransmit(coap_context_t *context, coap_queue_t *node) {
                      (unsigned)(next_delay * 1000 / COAP_TICKS_PER_SECOND));
     }
 
-    if (node->session->con_active)
+    if (node->session->con_active) {
       node->session->con_active--;
+      con_released = 1;
+    }
     bytes_written = coap_send_pdu(node->session, node->pdu, node);
 
     if (node->is_mcast) {
@@ -1967,8 +1970,16 @@ coap_retransmit(coap_context_t *context, coap_queue_t *node) {
       return node->id;
     }
 
-    if (bytes_written < 0)
+    if (bytes_written < 0) {
+      /*
+       * Nothing was sent this time, but the message is still outstanding (it
+       * remains in the sendqueue and will be retransmitted or given up): it
+       * keeps its NSTART slot.
+       */
+      if (con_released && COAP_PROTO_NOT_RELIABLE(node->session->proto))
+        node->session->con_active++;
       return (int)bytes_written;
+    }
 
     return node->id;
   }
